@@ -44,6 +44,7 @@ def plan(tier, seed):
     scs += [dict(kind='quads-bo', j=j) for j in range(N)]
     scs.append(dict(kind='paircoeffs'))
     scs += [dict(kind='pairs-history', i=i) for i in range(N)]
+    scs += [dict(kind='rules-edited', i=i) for i in range(0, N, 3)] + [dict(kind='results-edited')]
     if tier == 'quick':
         scs += [dict(kind='quads', j=j, k=None) for j in range(N)]
     else:
@@ -113,6 +114,62 @@ def run(sc, ctx):
                         out['nontrivial'] += REF.BO[i, j] != 1.0
         if sc['i'] == 10:
             out['samples'] = [dict(kind='pair', types=[a, K[3]], bond_params=list(ru.bond_params(a, K[3])))]
+        return out
+    if kind == 'rules-edited':
+        # ONE rules list object, edited in place between calls (a rule appended, retuned, removed): every call must use the list as it is now
+        i = sc['i']; a = K[i]
+        def expect(i, j, rules):
+            for types, bo in rules:
+                if {K[i], K[j]} == set(types):
+                    return bo
+            return REF.BO[i, j]
+        for j in range(0, N, 2):
+            b = K[j]; c = K[(j + 11) % N]
+            rules = [({a, c}, 1.5)] if c != b else []
+            edits = [lambda r: r.append(({a, b}, 2)), lambda r: r.__setitem__(len(r) - 1, ({a, b}, 1.25)), lambda r: r.insert(0, ({a, b}, 0.5)), lambda r: r.pop(0), lambda r: r.clear()]
+            for step in range(len(edits) + 1):
+                eff = expect(i, j, rules)
+                ri, rj = REF.r[i], REF.r[j]
+                rij = ri + rj - 0.1332 * (ri + rj) * math.log(eff) - ri * rj * (math.sqrt(REF.chi[i]) - math.sqrt(REF.chi[j])) ** 2 / (REF.chi[i] * ri + REF.chi[j] * rj)
+                kexp = 664.12 * REF.Z[i] * REF.Z[j] / rij ** 3 / 2
+                got, err = call(ru.bond_params, a, b, bond_order_rules=rules)
+                g2, err2 = call(ru.guess_bond_order, a, b, rules)
+                out['evals'] += 2; out['compared'] += 1; out['states'] += 1
+                if err or err2:
+                    V(out, sc, 'bond', 'rules-exc', 'bond_params(%s,%s) with the rules list %r raised %r' % (a, b, rules, (err or err2)[0]))
+                elif not (close(got[0], kexp) and close(got[1], rij)) or g2 != eff:
+                    V(out, sc, 'bond', 'rules-edited', 'after %d in-place edit(s) of the rules list (now %r): bond_params(%s, %s) = %r and guess_bond_order = %r; with the list as it is the bond order is %r and UFF gives (%r, %r)' % (step, rules, a, b, got, g2, eff, kexp, rij))
+                if step < len(edits):
+                    edits[step](rules)
+            out['nontrivial'] += 1
+        oc['rules list edited in place'] = oc.get('rules list edited in place', 0) + 1
+        return out
+    if kind == 'results-edited':
+        # values handed out must be the caller's own: writing into a returned list / tuple-of-lists must not change what later calls return
+        for i, a in enumerate(K):
+            first, err = call(ru.pair_coeffs, a)
+            if err or first is None:
+                continue
+            snap = list(first) if isinstance(first, (list, tuple)) else first
+            if isinstance(first, list):
+                for q in range(len(first)):
+                    try:
+                        first[q] = first[q] * 4.184 if isinstance(first[q], (int, float)) else first[q]
+                    except Exception:
+                        pass
+            again, err = call(ru.pair_coeffs, a)
+            out['evals'] += 2; out['compared'] += 1; out['states'] += 1
+            if err or (list(again) if isinstance(again, (list, tuple)) else again) != snap:
+                V(out, sc, 'pair', 'results-edited', 'pair_coeffs(%s) returned %r; after the caller wrote into that list the next call returns %r' % (a, snap, err[0] if err else again))
+        for i in range(0, N, 7):
+            for j in range(0, N, 5):
+                first, err = call(ru.bond_params, K[i], K[j]); second, err2 = call(ru.bond_params, K[i], K[j])
+                if not err and not err2 and isinstance(first, list):
+                    snap = list(second); first[0] = -1.0; first[1] = -1.0
+                    third, _ = call(ru.bond_params, K[i], K[j])
+                    if list(third) != snap:
+                        V(out, sc, 'bond', 'results-edited', 'bond_params(%s,%s): writing into a returned list changed the next result %r -> %r' % (K[i], K[j], snap, third))
+        oc['returned values edited'] = 1; out['nontrivial'] += 1
         return out
     if kind == 'pairs-history':
         # call histories in one process: the same ordered pair evaluated again and again with bond orders that lie close together
